@@ -4341,8 +4341,11 @@ EmitModSib_LabelRip_X86:
 
           if (label->is_bound_to(_section)) {
             // Label bound to the current section.
-            rel_offset += int32_t(label->offset() - writer.offset_from(_buffer_data));
-            writer.emit32u_le(uint32_t(rel_offset));
+            int64_t rel64 = int64_t(rel_offset) + int64_t(label->offset() - writer.offset_from(_buffer_data));
+            if (ASMJIT_UNLIKELY(!Support::is_int_n<32>(rel64))) {
+              goto InvalidDisplacement;
+            }
+            writer.emit32u_le(uint32_t(uint64_t(rel64) & 0xFFFFFFFFu));
           }
           else {
             // Non-bound label or label bound to a different section.
@@ -4837,7 +4840,11 @@ EmitJmpCall:
       label = &_code->label_entry_of(label_id);
       if (label->is_bound_to(_section)) {
         // Label bound to the current section.
-        rel32 = uint32_t((label->offset() - ip - inst32_size) & 0xFFFFFFFFu);
+        int64_t rel64 = int64_t(label->offset() - ip - inst32_size);
+        if (ASMJIT_UNLIKELY(!Support::is_int_n<32>(rel64))) {
+          goto InvalidDisplacement;
+        }
+        rel32 = uint32_t(uint64_t(rel64) & 0xFFFFFFFFu);
         goto EmitJmpCallRel;
       }
       else {
